@@ -1200,14 +1200,13 @@ func (w *verifWorld) note(format string, args ...interface{}) {
 	}
 }
 
+// verifCause names the reason of a write failure without depending on which
+// of several armed faults snapd's map iteration reached first.
 func verifCause(fired bool, obstacle string) string {
-	if fired && obstacle != "" {
-		return "injected fault fired; " + obstacle
+	if obstacle != "" {
+		return obstacle
 	}
-	if fired {
-		return "injected fault fired"
-	}
-	return obstacle
+	return "injected fault fired"
 }
 
 // verifErrText strips the scratch path (it differs between executions).
